@@ -196,10 +196,70 @@ def run_wiring():
     return dict(confirmed=False, reason="start_server enforces every configured rule")
 
 
+def run_cli():
+    """`nauyaca serve --config FILE [--require-client-cert]`: the rules handed to start_server decide as the rules written in FILE do"""
+    from typer.testing import CliRunner
+    import nauyaca.__main__ as cli
+    tmp = Path(tempfile.mkdtemp())
+    (tmp / "root").mkdir()
+    toml = tmp / "c.toml"
+    toml.write_text(f'''[server]
+document_root = "{tmp / 'root'}"
+
+[[certificate_auth.paths]]
+prefix = "/locked/"
+require_cert = true
+allowed_fingerprints = []
+
+[[certificate_auth.paths]]
+prefix = "/members/"
+allowed_fingerprints = ["{FP_OK}"]
+
+[[certificate_auth.paths]]
+prefix = "/any/"
+require_cert = true
+''')
+    written = [CertificateAuthPathRule("/locked/", require_cert=True, allowed_fingerprints=set()), CertificateAuthPathRule("/members/", require_cert=False, allowed_fingerprints={FP_OK}),
+               CertificateAuthPathRule("/any/", require_cert=True)]
+    for flags in ([], ["--require-client-cert"]):
+        seen = {}
+
+        async def fake_start(config, **kw):
+            seen.update(kw)
+        real = cli.start_server
+        cli.start_server = fake_start
+        try:
+            res = CliRunner().invoke(cli.app, ["serve", "--config", str(toml)] + flags)
+        finally:
+            cli.start_server = real
+        if "certificate_auth_config" not in seen:
+            continue            # the command did not get as far as starting a server (exit code says why): nothing is served
+        cfg = seen["certificate_auth_config"]
+        for loc, fp in itertools.product(["/locked/x", "/members/m.gmi", "/any/a", "/open/o.gmi", "/"], [None, FP_OK, FP_OTHER]):
+            want = admits(first_covering(written, loc), fp)
+            if cfg is None:
+                got = True
+            else:
+                got, _ = asyncio.run(CertificateAuth(cfg).process_request("gemini://h" + loc, "192.0.2.1", fp))
+            if got != want and not (flags and loc in ("/open/o.gmi", "/") and fp is None and not got):
+                # (with --require-client-cert an operator may additionally be asked for a certificate where the file has no rule:
+                #  stricter than written for unruled paths is not a disclosure; the rules of the file must decide where they apply)
+                return dict(confirmed=True, input=dict(command="nauyaca serve --config c.toml " + " ".join(flags), toml=toml.read_text(), request_path=loc, certificate=fp),
+                            observed=dict(admitted=got, rules_as_written_admit=want, rules_handed_to_start_server=[repr(r) for r in (cfg.path_rules if cfg else [])]),
+                            clause="what is written in the configuration file is what is enforced (the first rule covering the resource decides)")
+    return dict(confirmed=False, reason="the CLI hands the file's rules to start_server")
+
+
 def main():
     p = load()
     ob = p.get("obligation", "")
-    if ob == "__bounded__":
+    if ob == "__bounded__" or "command line" in ob:
+        try:
+            r = run_cli()
+        except ImportError:
+            r = {}
+        if r.get("confirmed"):
+            done(**r)
         try:
             r = run_wiring()
         except Exception as e:  # noqa: BLE001
